@@ -192,6 +192,11 @@ def gen_history(r, secure=True, allow_long=True):
 LONGC = b"L" * 250
 
 DIRECTED = [
+    # a link target on an entry that says "regular file": the link is made, and then nothing may be done THROUGH it
+    [2, SEC | PERM | TIME, 0o22, [], [[5, b"x", b"/outside/cfile", 0o777, 1, b""]]],
+    [2, SEC | PERM | TIME | 0x0080, 0o22, [], [[5, b"d/x", b"../../outside/cdir", 0o700, 7, b""], [5, b"y", b"/outside/cfile", 0o600, 1, b""]]],
+    # a symbolic link named with a trailing slash that carries an extended attribute (ARCHIVE_EXTRACT_XATTR = 0x80)
+    [2, SEC | PERM | 0x0080, 0o22, [], [[6, b"l/", b"/outside/cdir", 0o777, 1, b""], [6, b"m", b"/outside/cfile", 0o777, 1, b""], [6, b"n/./", b"../outside/sub", 0o777, 1, b""]]],
     # the classic: planted symlink, then a file through it
     [2, SEC | PERM | TIME, 0o22, [], [[T_SYMLINK, b"x", b"../outside", 0o777, 1, b""], [T_FILE, b"x/evil", b"", 0o644, 1, b"evil"]]],
     [2, SEC | PERM | TIME, 0o22, [[2, b"x", b"/outside", 0]], [[T_FILE, b"x/evil", b"", 0o644, 1, b"evil"], [T_DIR, b"x/cdir", b"", 0o700, 5, b""]]],
@@ -236,12 +241,12 @@ DIRECTED = [
 
 def describe_history(c):
     _, flags, um, pre, ents = c
-    tn = {0: "file", 1: "dir", 2: "symlink", 3: "hardlink", 4: "fifo"}
+    tn = {0: "file", 1: "dir", 2: "symlink", 3: "hardlink", 4: "fifo", 5: "file-with-symlink-target", 6: "symlink+xattr"}
     def short(b):
         s = b.decode("latin-1")
         return s if len(s) <= 40 else s[:18] + "...(%d)" % len(s)
     ps = ["%s %s%s" % (tn[p[0]], short(p[1]), (" -> " + short(p[2])) if p[0] in (2, 3) else "") for p in pre]
-    es = ["%s %s%s mode %o%s" % (tn[e[0]], short(e[1]), (" -> " + short(e[2])) if e[0] in (2, 3) else "", e[3],
+    es = ["%s %s%s mode %o%s" % (tn[e[0]], short(e[1]), (" -> " + short(e[2])) if e[0] in (2, 3, 5, 6) else "", e[3],
                                  " +data" if e[5] and e[0] == 3 else "") for e in ents]
     return "flags %#x umask %o; pre-existing [%s]; entries [%s]" % (flags, um, "; ".join(ps), "; ".join(es))
 
